@@ -627,3 +627,78 @@ Proof.
   intros until k. intros HF HN H. destruct c as [ms du ft]. cbn [c_fids] in HF, HN.
   destruct t; key_script HF H.
 Qed.
+
+(* ---------- the per-key effect of one request on the other attributes ---------- *)
+(* open state (f_opened / f_omode) and type bits (f_type) against ospec_step / tspec_step;
+   a variant of [key_script] so that [step_key] stays as it is *)
+Lemma vget_oabs : forall ft k, vget (oabs ft) k = option_map ocode (fget ft k).
+Proof.
+  induction ft as [|[k0 r0] t IH]; intros; [reflexivity|].
+  change (vget (oabs ((k0,r0)::t)) k) with (if k0 =? k then Some (ocode r0) else vget (oabs t) k).
+  change (fget ((k0,r0)::t) k) with (if k0 =? k then Some r0 else fget t k).
+  rewrite IH. destruct (k0 =? k); reflexivity.
+Qed.
+
+Lemma vget_tabs : forall ft k, vget (tabs ft) k = option_map f_type (fget ft k).
+Proof.
+  induction ft as [|[k0 r0] t IH]; intros; [reflexivity|].
+  change (vget (tabs ((k0,r0)::t)) k) with (if k0 =? k then Some (f_type r0) else vget (tabs t) k).
+  change (fget ((k0,r0)::t) k) with (if k0 =? k then Some r0 else fget t k).
+  rewrite IH. destruct (k0 =? k); reflexivity.
+Qed.
+
+Lemma ospec_step_norm : forall v t du r, ospec_step v t (norm_msg du r) = ospec_step v t r.
+Proof. intros. destruct du; [reflexivity|]. destruct r; try reflexivity; destruct t; reflexivity. Qed.
+
+Lemma tspec_step_norm : forall v t du r, tspec_step v t (norm_msg du r) = tspec_step v t r.
+Proof. intros. destruct du; [reflexivity|]. destruct r; try reflexivity; destruct t; reflexivity. Qed.
+
+Lemma reply_irrelevant_attr : forall t r, reply_matters t r = false ->
+  (forall v, ospec_step v t r = v) /\ (forall v, tspec_step v t r = v).
+Proof.
+  intros t r H. destruct t; try (split; reflexivity); try discriminate H;
+  destruct r; try discriminate H; split; reflexivity.
+Qed.
+
+Global Hint Rewrite vget_oabs vget_tabs : fga.
+
+Arguments oabs : simpl never.
+Arguments tabs : simpl never.
+Local Arguments last_qid_type : simpl never.
+Local Arguments N.add : simpl never.
+
+Definition attr_concl (c : conn) (t : msg) (c' : conn) (r : msg) (k : N) : Prop :=
+  option_map ocode (fget (c_fids c') k) = vget (ospec_step (oabs (c_fids c)) t r) k /\
+  option_map f_type (fget (c_fids c') k) = vget (tspec_step (tabs (c_fids c)) t r) k.
+
+Ltac norm_loop_a := repeat (progress (autorewrite with fg fga; use_fget; cbn) || decide_step).
+
+Ltac attr_script HF H :=
+  start_step H;
+  pre_loop; bool_norm;
+  cbn [c_fids c_dotu c_msize with_fids];
+  rewrite ?reply0_reject, ?fit_rerror;
+  unfold attr_concl; cbn [c_fids c_dotu c_msize with_fids];
+  unfold post_tab, on_wire, with_fids; rewrite ospec_step_norm, tspec_step_norm;
+  try match goal with |- context [fit ?a ?b (reply0 ?t ?p ?sc)] =>
+     generalize (fit a b (reply0 t p sc)); intros rr;
+     let RM := fresh "RM" in
+     destruct (reply_matters t rr) eqn:RM;
+     [ destruct rr; try discriminate RM; clear RM
+     | let RM1 := fresh "RM" in let RM2 := fresh "RM" in let RM3 := fresh "RM" in
+       destruct (reply_irrelevant _ _ RM) as [RM1 _];
+       destruct (reply_irrelevant_attr _ _ RM) as [RM2 RM3]; rewrite ?RM1, ?RM2, ?RM3 ] end;
+  cbn [post_h ospec_step tspec_step r_fid r_afid r_newfid c_fids dec1 fst snd app];
+  eqb_norm; use_inv HF;
+  norm_loop_a;
+  split_fget HF;
+  fin.
+
+Lemma step_key_attr : forall cfg c t sc c' r ev k,
+  (forall k r, fget (c_fids c) k = Some r -> f_ref r = 1%Z) ->
+  fget (c_fids c) c_NOFID = None ->
+  seq_step cfg c t sc = (c', r, ev) -> attr_concl c t c' r k.
+Proof.
+  intros until k. intros HF HN H. destruct c as [ms du ft]. cbn [c_fids] in HF, HN.
+  destruct t; attr_script HF H.
+Qed.
